@@ -414,3 +414,11 @@ func (s *heapSubj[T]) DoHostile(op Op) {
 		hostileIdxIter[T](s.iter(), op.A[0])
 	}
 }
+
+func (s *heapSubj[T]) EncodeModel() []byte {
+	if s.m == nil {
+		return []byte("[]")
+	}
+	return mustJSON(s.m) // push order, i.e. in general NOT heap order
+}
+func (s *heapSubj[T]) AdoptModel(from Subject) { s.m = slices.Clone(from.(*heapSubj[T]).m) }
